@@ -132,6 +132,10 @@ vfs_create(const char *path)
         free_pages(f);
         return f;
     }
+    if (strlen(path) >= sizeof files[0].name) {
+        errno = ENAMETOOLONG;
+        return NULL;
+    }
     for (int i = 0; i < VFS_MAXFILES; i++)
         if (!files[i].exists) {
             f = &files[i];
